@@ -10,14 +10,17 @@ POL_q == {RI(-1), Zero, R(1, 3)} POL_full == {RI(-1), R(-1, 2), Zero, R(1, 3), O
 ZM(n) == [fns |-> "ZM-VFNS", nfff |-> 4, nfzm |-> n]
 
 Points ==
-  {[proc |-> p, proj |-> j, kind |-> k, flav |-> fl, nf |-> n, s2w |-> s, r |-> r, omd |-> o, pol |-> pl, ckm |-> ck] :
+  {[proc |-> p, proj |-> j, kind |-> k, flav |-> fl, nf |-> n, s2w |-> s, r |-> r, omd |-> o, pol |-> pl, ckm |-> ck, rexp |-> e] :
      p \in PROCS, j \in {11, -11, 12, -12}, k \in KINDS, fl \in FLAVS, n \in NFZM,
-     s \in S2W, r \in RR, o \in OMD, pl \in POL, ck \in CKMS}
+     s \in S2W, r \in RR, o \in OMD, pl \in POL, ck \in CKMS, e \in {0, 16}}
 \* canonical points only: EM/NC do not depend on the CKM, CC not on the EW point
 Canon(pt) == /\ (pt.proc # "CC" => pt.ckm = "generic")
              /\ (pt.proc = "CC" => /\ pt.s2w = (CHOOSE s \in S2W : TRUE) /\ pt.r = (CHOOSE r \in RR : TRUE)
                                    /\ pt.omd = (CHOOSE o \in OMD : TRUE) /\ pt.pol = (CHOOSE q \in POL : TRUE))
              /\ (pt.proc = "EM" => pt.r = (CHOOSE r \in RR : TRUE))
+             \* rexp = e: the run is made at the propagator ratio r / 2^e (every weight of a neutrino beam far below 1e-8, tiny but
+             \* not zero) and the observed row, multiplied by 4^e, must be the row at r (Theorems.C02_NeutrinoScaling)
+             /\ (pt.rexp # 0 => pt.proc = "NC" /\ pt.proj \in {12, -12} /\ ~RIsZero(pt.r))
              /\ (pt.flav \in {"charm", "bottom", "top"} => HqOf(pt.flav) <= pt.nf)
 CellOf(pt) ==
   MkCell([proc |-> pt.proc, proj |-> pt.proj, s2w |-> pt.s2w, r |-> pt.r, omd |-> pt.omd, pol |-> pt.pol, pos |-> 0],
